@@ -661,6 +661,81 @@ Section BufferWrappers.
   Qed.
 End BufferWrappers.
 
+(** ** a buffer without room for text + NUL: the model faults (the footprint
+    text length + 1 is necessary, not only sufficient) *)
+Lemma wr_fault buf c b : (Z.of_nat (length buf) <= c)%Z -> wr buf c b = Fault OOBWrite.
+Proof.
+  intros. unfold wr. replace (c <? Z.of_nat (length buf))%Z with false by lia.
+  rewrite andb_false_r. reflexivity.
+Qed.
+
+Section ShortBuffer.
+  Variable c : conv.
+  Hypothesis Hok : conv_ok c = true.
+  Let bits := cv_bits c.
+
+  Lemma zero_to_buffer_short buf : (length buf <= 1)%nat -> zero_to_buffer buf = Fault OOBWrite.
+  Proof.
+    intros H. unfold zero_to_buffer. destruct buf as [|a r].
+    - reflexivity.
+    - rewrite wr_ok by (cbn [length]; lia). cbn [bind Z.to_nat upd].
+      rewrite wr_fault by (cbn [length] in *; lia). reflexivity.
+  Qed.
+
+  Lemma u_to_buffer_short v buf : v < 2 ^ bits -> (length buf <= ndigits v)%nat ->
+    u_to_buffer c buf v = Fault OOBWrite.
+  Proof.
+    intros Hv H. unfold u_to_buffer. rewrite (str_length_correct c Hok v Hv), nat_N_Z.
+    rewrite wr_fault by lia. reflexivity.
+  Qed.
+
+  Lemma neg_to_buffer_short z buf : in_signed c z -> (z < 0)%Z ->
+    (length buf <= S (ndigits (Z.to_N (- z))))%nat -> neg_to_buffer c buf z = Fault OOBWrite.
+  Proof.
+    intros Hr Hz H. destruct (neg_abs c Hok z Hr Hz) as [Ha Hv]. unfold neg_to_buffer. rewrite Ha.
+    rewrite (str_length_correct c Hok _ Hv), nat_N_Z. rewrite wr_fault by lia. reflexivity.
+  Qed.
+
+  Lemma s_to_buffer_short z buf : in_signed c z -> (length buf <= length (sdec z))%nat ->
+    s_to_buffer c buf z = Fault OOBWrite.
+  Proof.
+    intros Hr. unfold s_to_buffer, sdec. destruct (z <? 0)%Z eqn:E.
+    - apply Z.ltb_lt in E. cbn [length]. intros. apply neg_to_buffer_short; assumption.
+    - apply Z.ltb_ge in E. destruct (z =? 0)%Z eqn:E0.
+      + apply Z.eqb_eq in E0. subst z. intros H. apply zero_to_buffer_short. exact H.
+      + apply Z.eqb_neq in E0. destruct (pos_abs c Hok z Hr ltac:(lia)) as [Ha Hv]. rewrite Ha.
+        intros. apply u_to_buffer_short; assumption.
+  Qed.
+
+  Lemma gu_to_buffer_short v sep buf : v < 2 ^ bits -> (length buf <= length (group3 sep (dec v)))%nat ->
+    gu_to_buffer c buf v sep = Fault OOBWrite.
+  Proof.
+    intros Hv H. unfold gu_to_buffer.
+    rewrite (str_length_correct c Hok v Hv), (grouped_len_correct c Hok v sep Hv), nat_N_Z.
+    rewrite wr_fault by lia. reflexivity.
+  Qed.
+
+  Lemma gneg_to_buffer_short z sep buf : in_signed c z -> (z < 0)%Z ->
+    (length buf <= S (length (group3 sep (dec (Z.to_N (- z))))))%nat ->
+    gneg_to_buffer c buf z sep = Fault OOBWrite.
+  Proof.
+    intros Hr Hz H. destruct (neg_abs c Hok z Hr Hz) as [Ha Hv]. unfold gneg_to_buffer. rewrite Ha.
+    rewrite (str_length_correct c Hok _ Hv), (grouped_len_correct c Hok _ sep Hv), nat_N_Z.
+    rewrite wr_fault by lia. reflexivity.
+  Qed.
+
+  Lemma gs_to_buffer_short z sep buf : in_signed c z -> (length buf <= length (sgroup sep z))%nat ->
+    gs_to_buffer c buf z sep = Fault OOBWrite.
+  Proof.
+    intros Hr. unfold gs_to_buffer, sgroup. destruct (z <? 0)%Z eqn:E.
+    - apply Z.ltb_lt in E. cbn [length]. intros. apply gneg_to_buffer_short; assumption.
+    - apply Z.ltb_ge in E. destruct (z =? 0)%Z eqn:E0.
+      + apply Z.eqb_eq in E0. subst z. intros H. apply zero_to_buffer_short. exact H.
+      + apply Z.eqb_neq in E0. destruct (pos_abs c Hok z Hr ltac:(lia)) as [Ha Hv]. rewrite Ha.
+        intros. apply gu_to_buffer_short; assumption.
+  Qed.
+End ShortBuffer.
+
 (** * the decimal text is the intended one: digits only, no leading zero, value v *)
 
 Definition dstep (a d : N) : N := a * 10 + (d - 48).
